@@ -130,8 +130,9 @@ static void setup(Runner &r, const Tier &t) {
     };
 }
 
+static void extra13(const Runner &r, JObj &o) { o.kv("states", (unsigned long long)r.total_done).kv("transitions", (unsigned long long)r.counters[0]).kv("validated", (unsigned long long)r.counters[0]); }
 int main(int argc, char **argv) {
     std::vector<Sub> subs;
-    { Sub s; s.name = "all_codepoints"; s.setup = setup; s.budget_quick = 120; s.budget_thorough = 900; s.counter_names = { "lookups", "is_char_supported_calls", "mapped_lookups", "fonts_not_accepted" }; subs.push_back(s); }
+    { Sub s; s.extra = extra13; s.name = "all_codepoints"; s.setup = setup; s.budget_quick = 120; s.budget_thorough = 900; s.counter_names = { "lookups", "is_char_supported_calls", "mapped_lookups", "fonts_not_accepted" }; subs.push_back(s); }
     return check_main(argc, argv, "C13", subs);
 }
